@@ -92,6 +92,42 @@ def run(tier, seed, replay=None):
         if c4 and not (r4 <= 10 * thr):
             V.fail("gmres_restart reports convergence with a residual above the threshold", {"size": m, "threshold": thr, "restarted": r4})
     dist["local gmres contract"] = n_loc
+    # the plane rotation of GMRES: for every sign / phase of the pivot the pair (c, s) is unitary and annihilates the second entry
+    # ([c s; -conj(s) c] applied to (v1, v2) gives (r, 0)); then GMRES with a full Krylov space on small systems of every definiteness
+    n_rot = 0
+    for t in range(40 if tier == "quick" else 400):
+        cplx_ = t % 4 == 3
+        mk_ = (lambda: complex(rng.gauss(0, 1), rng.gauss(0, 1))) if cplx_ else (lambda: rng.gauss(0, 1))
+        v1, v2 = mk_(), mk_()
+        if t % 5 == 0: v1 = -abs(v1) if not cplx_ else -v1
+        if t % 11 == 0: v2 = v2 * 1e-9
+        a1, a2 = (np.complex128(v1), np.complex128(v2)) if cplx_ else (np.float64(v1), np.float64(v2))
+        try:
+            c_, s_ = IS.givens_rotation(a1, a2)
+            unit = abs(abs(c_) ** 2 + abs(s_) ** 2 - 1.0); ann = abs(-np.conj(s_) * a1 + c_ * a2) / max(abs(a1), abs(a2))
+            if not (unit <= 1e-12 and ann <= 1e-12):
+                V.fail("givens_rotation: the rotation is not unitary / does not annihilate the second entry", {"v1": str(v1), "v2": str(v2), "c": str(c_), "s": str(s_), "unit_defect": float(unit), "annihilation_defect": float(ann)})
+        except Exception as ex:
+            V.fail("givens_rotation raises %s" % type(ex).__name__, {"v1": str(v1), "v2": str(v2), "exc": str(ex)[:200]})
+        n_rot += 1
+    dist["givens rotation contract"] = n_rot
+    n_def = 0
+    for t in range(12 if tier == "quick" else 120):
+        m = rng.choice([5, 8, 12]); kind_ = ["positive definite", "negative definite", "indefinite, diagonally dominant", "negative Laplacian"][t % 4]
+        G_ = torch.tensor([[rng.gauss(0, 1) for _ in range(m)] for _ in range(m)], dtype=torch.float64)
+        if kind_ == "positive definite": L = G_ @ G_.T / m + 2 * torch.eye(m, dtype=torch.float64)
+        elif kind_ == "negative definite": L = -(G_ @ G_.T / m + 2 * torch.eye(m, dtype=torch.float64))
+        elif kind_ == "indefinite, diagonally dominant": L = 0.1 * G_ + torch.diag(torch.tensor([3.0 * (-1) ** k_ for k_ in range(m)], dtype=torch.float64))
+        else: L = -(2 * torch.eye(m, dtype=torch.float64) - torch.diag(torch.ones(m - 1, dtype=torch.float64), 1) - torch.diag(torch.ones(m - 1, dtype=torch.float64), -1))
+        bvec = torch.tensor([[rng.gauss(0, 1)] for _ in range(m)], dtype=torch.float64)
+        try:
+            xg, cg, kg = IS.gmres_restart(_Op(L), bvec, torch.zeros_like(bvec), m, m, 1e-10, 2)
+            rg = float((L @ xg - bvec).norm() / bvec.norm())
+            if not (rg <= 1e-8): V.fail("gmres_restart with a full Krylov space does not solve a small well-conditioned system [%s]" % kind_, {"size": m, "rel_residual": rg, "reported_converged": bool(cg)})
+        except Exception as ex:
+            V.fail("gmres raises %s" % type(ex).__name__, {"size": m, "kind": kind_, "exc": str(ex)[:200]})
+        n_def += 1
+    dist["local gmres on systems of every definiteness"] = n_def
     # BiCGSTAB: the same kind of contract; its stopping tests must be relative (right-hand sides of any magnitude) and a
     # near-breakdown restart must restart the search direction too
     n_bi = 0
@@ -341,6 +377,27 @@ def run(tier, seed, replay=None):
         Af = A.full().reshape(int(np.prod(N)), -1); res = float((Af @ x.full().reshape(-1) - b.full().reshape(-1)).norm() / b.full().norm())
         if not (res <= CONST * eps):
             V.fail("amen_solve: residual exceeds %g*eps [%s]" % (CONST, key), dict(desc, rel_residual=res, ranks=[int(r) for r in x.R]))
+    # the public keyword use_single_precision (local iterative solves in float32, residual test in double): the same contract, at an eps the
+    # float32 local residuals can still serve (1e-5) and on systems whose solution needs more than one enrichment sweep (rank above 1 + kickrank)
+    for j, N_sp in enumerate(([8, 9], [5, 5, 5, 5]) if tier == "quick" else ([8, 9], [5, 5, 5, 5], [12, 12], [8, 9], [6, 7, 8], [5, 5, 5, 5])):
+        cs_ = []
+        A_sp = None
+        for k_ in range(len(N_sp)):
+            fac_ = [torch.eye(n_, dtype=torch.float64).reshape(1, n_, n_, 1) for n_ in N_sp]
+            L_ = 2 * torch.eye(N_sp[k_], dtype=torch.float64) - torch.diag(torch.ones(N_sp[k_] - 1, dtype=torch.float64), 1) - torch.diag(torch.ones(N_sp[k_] - 1, dtype=torch.float64), -1)
+            fac_[k_] = L_.reshape(1, N_sp[k_], N_sp[k_], 1); T_ = torchtt.TT(fac_); A_sp = T_ if A_sp is None else A_sp + T_
+        A_sp = A_sp.round(1e-14)
+        b_sp = solverkit.rand_tt_float(rng, N_sp, [1] + [2] * (len(N_sp) - 1) + [1], torch.float64)
+        ls_ = 1 + j % 2; eps_sp = 1e-5
+        sd = rng.randrange(1 << 30); torch.manual_seed(sd)
+        desc = {"use_single_precision": True, "N": N_sp, "family": "laplace", "eps": eps_sp, "max_full": 0, "local_solver": ["gmres", "bicgstab"][ls_ - 1], "torch_seed": sd}
+        try:
+            x_sp = torchtt.solvers.amen_solve(A_sp, b_sp, eps=eps_sp, nswp=40, max_full=0, local_solver=ls_, use_single_precision=True, verbose=False, use_cpp=False)
+            n_ = int(np.prod(N_sp)); res = float((A_sp.full().reshape(n_, n_) @ x_sp.full().reshape(-1) - b_sp.full().reshape(-1)).norm() / b_sp.full().norm())
+            if not (res <= CONST * eps_sp): V.fail("amen_solve(use_single_precision=True): residual exceeds %g*eps" % CONST, dict(desc, rel_residual=res, ranks=[int(r) for r in x_sp.R]))
+        except Exception as ex:
+            V.fail("amen_solve(use_single_precision=True) raises %s" % type(ex).__name__, dict(desc, exc=str(ex)[:200]))
+        dist["use_single_precision"] = dist.get("use_single_precision", 0) + 1
     nviol = V.finish()
     cov = proofcheck.coverage(PID, obl, evaluations=n + len(search_cases), distinct_nontrivial=len(dist) + n_search,
         rule=("amen_solve on SPD (P^T P + 2I), diagonally dominant (3I + small P) and discrete-Laplacian-like (sum of 1-d second differences + shift) TT operators of order 2..5, "
